@@ -37,6 +37,10 @@ def string_schemas(rng, n):
 def tricky_schemas(rng, n):
     """schemas with unsatisfiable pieces in optional positions: either rejected at compile time or compiled without dead ends"""
     unsat = [
+        {"type": "number", "exclusiveMinimum": 0.3, "maximum": 0.35, "multipleOf": 0.1},
+        {"type": "integer", "minimum": 0.3, "maximum": 1.2, "multipleOf": 0.3},
+        {"type": "number", "minimum": 1.1, "maximum": 1.9, "multipleOf": 1},
+        {"type": "integer", "exclusiveMinimum": 4, "exclusiveMaximum": 6, "multipleOf": 3},
         {"type": "integer", "minimum": 3, "maximum": 2},
         {"type": "string", "minLength": 4, "maxLength": 2},
         {"type": "string", "pattern": "^a$", "minLength": 3},
@@ -66,6 +70,10 @@ def tricky_schemas(rng, n):
         else:
             s = {"type": "object", "properties": {"a": {"anyOf": [u, rng.choice(unsat)]}, "b": rng.choice(ok)}, "required": ["b"], "additionalProperties": False}
         out.append(s)
+    # pattern properties whose key language is used up by declared properties
+    for pat, names in [("^a$", ["a"]), ("^(a|b)$", ["a", "b"]), ("^a", ["a"]), ("^[ab]$", ["a"])]:
+        out.append({"type": "object", "properties": {n: {"type": "integer", "minimum": 0, "maximum": 9} for n in names},
+                    "patternProperties": {pat: {"type": "boolean"}}, "additionalProperties": False})
     return out
 
 
@@ -158,6 +166,111 @@ def unproductive_query(cg, empty_lexemes):
     return None if r == z3.unsat else "unknown"
 
 
+def dead_rule_query(cg, empty_lexemes):
+    """sat <=> some rule of a reachable symbol has, after a prefix that can derive a NON-EMPTY terminal string, an element that can never
+    be completed (an unproductive symbol or a lexeme whose automaton is empty): tokens are allowed into the prefix, nothing can follow.
+    Returns (rule index, position) or None / "unknown"."""
+    g = cg.trimmed()
+    ml = g.minlen()
+    INF = 10 ** 9
+    prod = set(a for a, v in ml.items() if v < INF)
+    # can derive a non-empty string: some derivation with a terminal of a non-empty lexeme
+    nonempty = set()
+    changed = True
+    while changed:
+        changed = False
+        for l, r in g.rules:
+            if l in nonempty:
+                continue
+            if all((k == "T" and v not in empty_lexemes) or (k == "N" and v in prod) for k, v in r) and \
+                    any((k == "T") or (k == "N" and v in nonempty) for k, v in r):
+                nonempty.add(l)
+                changed = True
+    sel = {}
+    s = z3.Solver()
+    for i, (l, r) in enumerate(g.rules):
+        for j, (k, v) in enumerate(r):
+            dead = (k == "T" and v in empty_lexemes) or (k == "N" and v not in prod)
+            if not dead:
+                continue
+            pre = r[:j]
+            pre_ok = all((kk == "T" and vv not in empty_lexemes) or (kk == "N" and vv in prod) for kk, vv in pre)
+            pre_nonempty = any(kk == "T" or (kk == "N" and vv in nonempty) for kk, vv in pre)
+            if pre_ok and pre_nonempty:
+                sel[(i, j)] = z3.Bool("dead_%d_%d" % (i, j))
+    if not sel:
+        return None, g
+    s.add(z3.Or(*sel.values()))
+    r = s.check()
+    if r == z3.sat:
+        m = s.model()
+        for key, b in sel.items():
+            if z3.is_true(m.eval(b, model_completion=True)):
+                return key, g
+    return (None if r == z3.unsat else "unknown"), g
+
+
+def witness_prefix(g, rule_idx, pos, empty_lexemes):
+    """terminal sequence: a shortest sentence prefix that reaches rule `rule_idx` and runs through its first `pos` elements"""
+    INF = 10 ** 9
+    short = {}
+    changed = True
+    while changed:
+        changed = False
+        for l, r in g.rules:
+            parts = []
+            ok = True
+            for k, v in r:
+                if k == "T":
+                    if v in empty_lexemes:
+                        ok = False
+                        break
+                    parts.append(v)
+                elif v in short:
+                    parts += short[v]
+                else:
+                    ok = False
+                    break
+            if ok and (l not in short or len(parts) < len(short[l])):
+                short[l] = parts
+                changed = True
+
+    def sent(syms):
+        out = []
+        for k, v in syms:
+            if k == "T":
+                out.append(v)
+            elif v in short:
+                out += short[v]
+            else:
+                return None
+        return out
+    ctx = {g.start: []}
+    changed = True
+    while changed:
+        changed = False
+        for l, r in g.rules:
+            if l not in ctx:
+                continue
+            for j, (k, v) in enumerate(r):
+                if k != "N":
+                    continue
+                pre = sent(r[:j])
+                if pre is None:
+                    break
+                cand = ctx[l] + pre
+                if v not in ctx or len(cand) < len(ctx[v]):
+                    ctx[v] = cand
+                    changed = True
+    l, r = g.rules[rule_idx]
+    if l not in ctx:
+        return None
+    pre = sent(r[:pos])
+    if pre is None:
+        return None
+    return ctx[l] + pre
+
+
 def _work(args):
     idx, res = args
     out = dict(idx=idx, status="ok", queries=0, solver_s=0.0, traps=[], unprod=None, n_aut=0, n_states=0, hints_bad=[])
@@ -196,6 +309,24 @@ def _work(args):
             out["status"] = "unknown"
         elif up:
             out["unprod"] = up[:6]
+        t0 = time.time()
+        dr, g = dead_rule_query(cg, empty)
+        out["solver_s"] += time.time() - t0
+        out["queries"] += 1
+        if dr == "unknown":
+            out["status"] = "unknown"
+        elif dr:
+            terms = witness_prefix(g, dr[0], dr[1], empty)
+            bs = None
+            if terms is not None:
+                bs = []
+                for t in terms:
+                    smp = shortest_accepted(Aut(auts[t]), t) if t < len(auts) and "error" not in auts[t] else None
+                    if smp is None:
+                        bs = None
+                        break
+                    bs += list(smp)
+            out["dead_rule"] = dict(rule="%s -> %s" % (g.rules[dr[0]][0], g.rules[dr[0]][1]), position=dr[1], prefix_terminals=terms, prefix_bytes=bs)
     return out
 
 
@@ -245,6 +376,9 @@ def run():
             if o["unprod"]:
                 viol.append(("unproductive-symbol|%s" % c["family"], dict(property=prop, case=c, symbols=o["unprod"], cgrammar=results[i].get("cgrammar"),
                                                                        note="a reachable symbol of the compiled grammar derives no terminal string")))
+            if o.get("dead_rule"):
+                viol.append(("dead-rule|%s" % c["family"], dict(property=prop, case=c, dead_rule=o["dead_rule"], cgrammar=results[i].get("cgrammar"),
+                                                             note="a rule of the compiled grammar can be entered (non-empty prefix) but never completed")))
             if len(samples) < 12 and i % max(1, len(cases) // 11) == 0:
                 samples.append(dict(family=c["family"], grammar=c.get("text") or c.get("schema"), automata=o["n_aut"], states=o["n_states"], verdict="no trap set, no unproductive symbol"))
     # vacuity twins: a synthetic automaton with a trap and a grammar with an unproductive symbol must be flagged
@@ -277,6 +411,24 @@ def run():
             rr = e2.run_jobs([j])[0]
             payload["replay"] = {k2: rr.get(k2) for k2 in ("ok", "consumed", "all", "accepting", "stopped")}
             confirmed = bool(rr.get("ok") and rr.get("all") and not rr.get("accepting"))
+        if "dead_rule" in payload:
+            bs = payload["dead_rule"].get("prefix_bytes")
+            if bs is None:
+                inconclusive.append("dead rule for %s: no concrete prefix could be built" % key)
+                continue
+            j = dict(op="replay", kind=c["kind"], bytes=bs, final_mask=True)
+            if c["kind"] == "json":
+                j["schema"] = c["schema"]
+            else:
+                j["text"] = c["text"]
+            rr = e2.run_jobs([j])[0]
+            payload["replay"] = {k2: rr.get(k2) for k2 in ("ok", "consumed", "all", "accepting", "stopped", "final_mask_count", "final_mask_err", "stop_reason")}
+            payload["prefix_text"] = bytes(bs).decode("utf-8", "replace")
+            dead = bool(rr.get("ok") and rr.get("all") and not rr.get("accepting") and (rr.get("final_mask_count") == 0 or rr.get("final_mask_err")))
+            if not dead:
+                # ambiguity: another rule covers the same prefix -- not a dead end, not reported
+                continue
+            confirmed = True
         payload["key"] = key
         payload["confirmed_on_matcher"] = confirmed
         if confirmed is False:
